@@ -6,7 +6,7 @@
    items:  k item*k        nexpr: 0 n | 1 x
    item:   0 s | 1 x | 2 x s | 3 x <items> | 4 n <items> | 5 b req <items> | 6 | 7 b | 8 <nexpr>
          | 9 x <nexpr> | 10 ign k <nexpr>*k | 11 f <items> | 12 f arg | 13 <nexpr> m
-         | 14 <nexpr> k (x alias)*k | 15 m x | 16 m f arg | 17 m
+         | 14 <nexpr> k (x alias)*k | 15 m x | 16 m f arg | 17 m | 18 x <items>
    result: 0 k tok*k (rendered) | 1 code limit? (error kind) | 2 (panic) | 8 (out of fuel) | 9 (bad input) *)
 From Coq Require Import String.
 From MJ Require Import Common.Base C06.Lang C06.Model C06.Spec.
@@ -67,6 +67,7 @@ Fixpoint dec_item (fuel : nat) (l : list Z) : option (item * list Z) :=
       | 15 :: m :: x :: r => Some (IPrintAttr m x, r)
       | 16 :: m :: fn :: arg :: r => Some (ICallAttr m fn arg, r)
       | 17 :: m :: r => Some (IKeys m, r)
+      | 18 :: x :: r => match body r with Some (b, r2) => Some (ISetBlock x b, r2) | None => None end
       | _ => None
       end
   end.
